@@ -258,6 +258,20 @@ var _ = types.Typ
 
 // loopExitEdges: the CFG edges that leave the natural loop of header.
 func loopExitEdges(header *ssa.BasicBlock) cutSet {
+	body := loopBody(header)
+	cut := cutSet{}
+	for b := range body {
+		for i, s := range b.Succs {
+			if !body[s] {
+				cut[edge{b, i}] = true
+			}
+		}
+	}
+	return cut
+}
+
+// loopBody: the blocks of the natural loop of header.
+func loopBody(header *ssa.BasicBlock) map[*ssa.BasicBlock]bool {
 	body := map[*ssa.BasicBlock]bool{header: true}
 	var stack []*ssa.BasicBlock
 	for _, p := range header.Preds {
@@ -278,15 +292,7 @@ func loopExitEdges(header *ssa.BasicBlock) cutSet {
 			}
 		}
 	}
-	cut := cutSet{}
-	for b := range body {
-		for i, s := range b.Succs {
-			if !body[s] {
-				cut[edge{b, i}] = true
-			}
-		}
-	}
-	return cut
+	return body
 }
 
 // ---- C19-b: key extracted in the layout its positions were computed for ----
